@@ -597,6 +597,14 @@ def programs(draw, max_depth=4, max_stmts=5, features=None):
             return ["apply", arrexpr(ctx), block(ctx.sub(nums=ctx.nums + ("_x",), scopes=(), in_try=False), ends="num", maxlen=2, plain=True)]
         raise ValueError(k)
 
+    def loopbody(ctx, binds):
+        # every iteration is a scope of its own: it can be named again each time round, and breaking out of it ends the loop
+        if (not feats or "breakout" in feats) and draw(st.integers(0, 3)) == 0:
+            counter["s"] += 1
+            nm = "s%d" % counter["s"]
+            return [["scope", nm, "loop"]] + block(ctx.sub(nums=ctx.nums + binds, scopes=ctx.scopes + (nm,)), ends="none")
+        return block(ctx.sub(nums=ctx.nums + binds), ends="none")
+
     def stmt(ctx, plain=False):
         kinds = ["mark", "mark", "obs", "obs", "set", "if", "while", "for", "foreach", "exitwith"]
         if ctx.in_try:
@@ -626,15 +634,15 @@ def programs(draw, max_depth=4, max_stmts=5, features=None):
             counter["w"] += 1
             extra = boolexpr(ctx, 0) if draw(st.integers(0, 3)) == 0 else None
             wid = counter["w"]
-            return ["while", wid, draw(st.integers(0, 4)), extra, block(ctx.sub(nums=ctx.nums + ("_w%d" % wid,)), ends="none")]
+            return ["while", wid, draw(st.integers(0, 4)), extra, loopbody(ctx, ("_w%d" % wid,))]
         if k == "for":
             var = draw(st.sampled_from(["_i", "_j", "_I"]))
             a = draw(st.sampled_from([0, 1, 2, 3, -1, 0.5]))
             b = draw(st.sampled_from([0, 1, 2, 3, 4, -2]))
             s = draw(st.sampled_from([None, None, 1, 2, 0.5, -1, -2]))
-            return ["for", var, a, b, s, block(ctx.sub(nums=ctx.nums + (var,)), ends="none")]
+            return ["for", var, a, b, s, loopbody(ctx, (var,))]
         if k == "foreach":
-            return ["foreach", arrexpr(ctx), block(ctx.sub(nums=ctx.nums + ("_x", "_forEachIndex")), ends="none")]
+            return ["foreach", arrexpr(ctx), loopbody(ctx, ("_x", "_forEachIndex"))]
         if k == "throw":
             return ["throw", numexpr(ctx)]
         if k == "breakout":
@@ -716,6 +724,8 @@ def features_of(prog):
                 labs.add("breakout_value")
         elif k == "scope":
             labs.add("scopename")
+            if len(s) > 2:
+                labs.add("scopename_in_loop")
         if depth >= 2:
             labs.add("nest>=2")
         if depth >= 3:
